@@ -117,19 +117,24 @@ static void prop(Tape &t, Ctx &c) {
         if (offer.empty()) offer.push_back(ALL[t.below(ALL.size())]);
         bool server_restricts = t.chance(1, 4); std::vector<uint16_t> senabled; if (server_restricts) { for (auto a : ALL) if (t.chance(1, 2)) senabled.push_back(a); if (senabled.empty()) server_restricts = false; }
         uint16_t suite = iauth == AUTH_RSA ? (t.coin() ? 0xC02F : 0xC027) : (t.coin() ? 0xC02B : 0xC023);
+        // key-exchange group: per-session curve sets (sslSessOpts_t.ecFlags) on both sides; 0 = library default (all compiled curves)
+        static const uint32_t CF[] = { IS_SECP256R1, IS_SECP384R1, IS_SECP521R1 }; static const int CID[] = { 23, 24, 25 };
+        uint32_t cflags = 0, sflags = 0; bool restrict_groups = t.chance(1, 2);
+        if (restrict_groups) { for (int i = 0; i < 3; i++) { if (t.chance(1, 2)) cflags |= CF[i]; if (t.chance(1, 2)) sflags |= CF[i]; } if (t.chance(1, 4)) cflags = 0; if (t.chance(1, 4)) sflags = 0; }
+        auto in_set = [&](uint32_t f, int curve) { if (f == 0) return true; for (int i = 0; i < 3; i++) if (CID[i] == curve) return (f & CF[i]) != 0; return false; };
         std::string os, ss; for (auto a : offer) os += fmt("%04x,", a); for (auto a : senabled) ss += fmt("%04x,", a);
-        std::string desc = fmt("D: %s identity=%s suite=%04x client signature_algorithms=[%s] server sigalgs=[%s]", ver_name(ver), iauth == AUTH_RSA ? "RSA/RSA" : iauth == AUTH_EC ? "EC/ECDSA" : "EC-key/RSA-signed", suite, os.c_str(), server_restricts ? ss.c_str() : "default");
+        std::string desc = fmt("D: %s identity=%s suite=%04x client signature_algorithms=[%s] server sigalgs=[%s] client curves=%02x server curves=%02x (0=default)", ver_name(ver), iauth == AUTH_RSA ? "RSA/RSA" : iauth == AUTH_EC ? "EC/ECDSA" : "EC-key/RSA-signed", suite, os.c_str(), server_restricts ? ss.c_str() : "default", cflags, sflags);
         c.sample(desc); if (c.verbose) fprintf(stderr, "case: %s\n", desc.c_str());
         Pair p; Config cc, sc; cc.client = true; sc.client = false; cc.versions = sc.versions = { ver }; cc.suites = { suite }; cc.auth = sc.auth = iauth; cc.entropy_stream = 1; sc.entropy_stream = 2;
-        cc.tweak = [&](sslSessOpts_t &o) { if (matrixSslSessOptsSetSigAlgs(&o, offer.data(), (psSize_t) offer.size()) < 0) throw Discard{}; };
-        if (server_restricts) sc.tweak = [&](sslSessOpts_t &o) { if (matrixSslSessOptsSetSigAlgs(&o, senabled.data(), (psSize_t) senabled.size()) < 0) throw Discard{}; };
+        cc.tweak = [&](sslSessOpts_t &o) { if (matrixSslSessOptsSetSigAlgs(&o, offer.data(), (psSize_t) offer.size()) < 0) throw Discard{}; if (cflags) o.ecFlags = cflags; };
+        sc.tweak = [&](sslSessOpts_t &o) { if (server_restricts && matrixSslSessOptsSetSigAlgs(&o, senabled.data(), (psSize_t) senabled.size()) < 0) throw Discard{}; if (sflags) o.ecFlags = sflags; };
         if (p.s.open(sc) < 0 || p.c.open(cc) < 0) { c.count("D:session-creation-refused"); return; }
         // observe the server's plaintext flight: SignatureAndHashAlgorithm of the ServerKeyExchange (handshake type 12)
-        int ske_alg = -1; const bool dt = ver == DTLS12;
+        int ske_alg = -1, ske_curve = -1; const bool dt = ver == DTLS12;
         p.mitm = [&](int dir, Bytes &d) { if (dir != 1) return; for (auto &r : parse_records(d, dt)) { if (r.type != 22) continue; size_t o = r.off + (dt ? 13 : 5), e = o + r.len;
                 while (o + (dt ? 12 : 4) <= e && e <= d.size()) { uint8_t ht = d[o]; size_t hl = (size_t) (d[o + 1] << 16 | d[o + 2] << 8 | d[o + 3]); size_t b = o + (dt ? 12 : 4); if (dt) { size_t fl = (size_t) (d[o + 9] << 16 | d[o + 10] << 8 | d[o + 11]); if (fl != hl) break; /* fragmented: not parsed */ }
                     if (b + hl > e) break;
-                    if (ht == 12 && hl > 4 && d[b] == 3) { size_t pl = d[b + 3]; if (4 + pl + 2 <= hl) ske_alg = d[b + 4 + pl] << 8 | d[b + 4 + pl + 1]; }
+                    if (ht == 12 && hl > 4 && d[b] == 3) { size_t pl = d[b + 3]; ske_curve = d[b + 1] << 8 | d[b + 2]; if (4 + pl + 2 <= hl) ske_alg = d[b + 4 + pl] << 8 | d[b + 4 + pl + 1]; }
                     o = b + hl; } } };
         p.run(60);
         Outcome o = finish(p);
@@ -143,8 +148,12 @@ static void prop(Tape &t, Ctx &c) {
             bool rsa_alg = (ske_alg & 0xff) == 0x01 || (ske_alg >> 8) == 0x08;
             VF_CHECK(rsa_alg == (iauth == AUTH_RSA), "signature-algorithm-does-not-fit-server-key", "ServerKeyExchange signed with %04x by a %s key; %s", ske_alg, iauth == AUTH_RSA ? "RSA" : "EC", desc.c_str());
             VF_CHECK(o.secrets_equal && o.data_ok, "master-secrets-differ", "%s", desc.c_str());
+            c.count(fmt("D:ske-curve:%d", ske_curve));
+            VF_CHECK(in_set(cflags, ske_curve), "key-exchange-group-not-offered-by-client", "ServerKeyExchange uses named curve %d; %s", ske_curve, desc.c_str());
+            VF_CHECK(in_set(sflags, ske_curve), "key-exchange-group-not-enabled-on-server", "ServerKeyExchange uses named curve %d; %s", ske_curve, desc.c_str());
         }
-        c.nontrivial(fmt("D|%d|%d|%04x|%zu|%d|%d", ver, iauth, suite, offer.size() > 4 ? 5 : offer.size(), server_restricts, o.c_done));
+        if (restrict_groups) c.count((cflags && sflags && !(cflags & sflags)) ? "D:curve-sets-disjoint" : "D:curve-sets-restricted");
+        c.nontrivial(fmt("D|%02x|%02x|%d|%d|%04x|%zu|%d|%d", cflags, sflags, ver, iauth, suite, offer.size() > 4 ? 5 : offer.size(), server_restricts, o.c_done));
         return;
     }
     if (family == 1) {
